@@ -166,6 +166,9 @@ func (w *World) applyEvent(ev string) bool {
 		w.lastUnsync = w.S.Now
 		if len(p) == 1 || p[1] != "raw" {
 			w.settleMacro() // "restart" brings the node back in sync; "restart:raw" does not
+			if w.cfg.Untrusted > 0 && len(w.viol) == 0 && !w.manualUntrusted {
+				w.bootUntrusted() // and its untrusted connections are dialled and verified again
+			}
 			w.lastUnsync = w.S.Now
 		}
 	case "sub": // the application (re)subscribes its push data filter
@@ -268,6 +271,11 @@ func (w *World) StopNode() {
 	// Whatever is still running belongs to the stopped node: unwind it.
 	w.S.KillAll(true)
 	w.P = nil
+	for _, a := range untrustedAddrs {
+		if pc := w.U[a]; pc != nil {
+			w.U[a] = &peerConn{addr: a, announced: map[string]int64{}} // its connection went with the process; it can be dialled again
+		}
+	}
 }
 
 func stateOfRun(w *World) string {
@@ -697,7 +705,9 @@ func (w *World) safeLiveness() {
 		}
 		vouched, local := false, false
 		for _, a := range w.arrivals[n] {
-			if a.src == "T" && a.ready {
+			// a vouching the running node instance saw, or one that reached an earlier instance while the tx
+			// was already tracked (that one is persisted with the tx)
+			if a.src == "T" && a.ready && (a.nodeGen == w.nodeGen || a.at >= t.times[0]) {
 				vouched = true
 			}
 			if a.src == "local" {
